@@ -3,3 +3,7 @@ package transfer
 // vOnMark is called by the replay-instrumented copy of recvFileStateMux.markChunkComplete (the call is
 // inserted into a copy of the current source by the replay overlay; the repository itself is untouched).
 var vOnMark func(path string, chunkSize uint32, idx uint32, chunkLen uint32)
+
+// vRecvYield is called by the replay-instrumented copy of the stream reader right before it registers
+// as a waiter for a file that was not announced yet (native replays widen that window with it).
+var vRecvYield = func() {}
